@@ -37,6 +37,11 @@ pub struct Case {
     pub entry: Entry,
     pub n: u64,
     pub c: Content,
+    /// the other side's commitment number is one ahead when the request is made (the holder
+    /// already validated commitment 1 and revoked 0 before counterparty commitment 1 is signed,
+    /// or the counterparty's commitment 1 was signed before holder commitment 1 is validated)
+    #[serde(default)]
+    pub other_ahead: bool,
     pub devs: Vec<Dev>,
 }
 
@@ -386,12 +391,31 @@ fn run_case(case: &Case) -> Res {
         return r;
     }
     // chain state
-    if e.chain >= 1 {
+    let need_funding_first = case.other_ahead && e.n == 1;
+    if e.chain >= 1 || need_funding_first {
         let b = make_block(&chain.tip().0, chain.height() + 1, 1, vec![funding_tx.clone()]);
         if !ch.w.connect(&mut chain, b, Delivery::Compact).is_ok() {
             r.skipped = true;
             r.class = "funding-block-failed".into();
             return r;
+        }
+    }
+    if need_funding_first {
+        // the other side moves ahead with a plain content while the funding is confirmed
+        let plain = balanced(&e.v, if e.v.outbound { e.v.value.saturating_sub(1_000_000) } else { 1_000_000 }, vec![], vec![], 1000);
+        let adv = if case.entry == Entry::SignCp { ch.holder_to_one(&plain) } else { ch.cp_to_one(&plain) };
+        if let Err(x) = adv {
+            r.skipped = true;
+            r.class = format!("other-side-advance-failed:{}", x.chars().take(40).collect::<String>());
+            return r;
+        }
+        if e.chain == 0 {
+            // ... and the funding block is reorganised away again
+            if !ch.w.disconnect(&mut chain, Delivery::Compact).is_ok() {
+                r.skipped = true;
+                r.class = "funding-reorg-failed".into();
+                return r;
+            }
         }
     }
     if e.chain >= 2 {
@@ -639,17 +663,20 @@ fn bases(tier: Tier) -> Vec<Case> {
                         let chain = if onchain { 1 } else { 0 };
                         let f = chain_facts(chain);
                         let cltv = f.height + 6;
-                        v.push(Case { pol, onchain, ucs, chain, v: sv.clone(), ctype, entry: Entry::Setup, n: 0, c: balanced(&sv, initial_holder_total(&sv), vec![], vec![], 1000), devs: vec![] });
+                        v.push(Case { pol, onchain, ucs, chain, v: sv.clone(), ctype, entry: Entry::Setup, n: 0, c: balanced(&sv, initial_holder_total(&sv), vec![], vec![], 1000), other_ahead: false, devs: vec![] });
                         for entry in [Entry::SignCp, Entry::Validate] {
                             // initial commitment
-                            v.push(Case { pol, onchain, ucs, chain, v: sv.clone(), ctype, entry, n: 0, c: balanced(&sv, initial_holder_total(&sv), vec![], vec![], 1000), devs: vec![] });
+                            v.push(Case { pol, onchain, ucs, chain, v: sv.clone(), ctype, entry, n: 0, c: balanced(&sv, initial_holder_total(&sv), vec![], vec![], 1000), other_ahead: false, devs: vec![] });
                             // a later commitment with one offered and one received HTLC
                             let ht = if outbound { sv.value - 1_000_000 } else { 1_000_000 };
                             let c1 = balanced(&sv, ht, vec![H { value_sat: 20_000, hash: 2, cltv }], vec![H { value_sat: 25_000, hash: 1, cltv: cltv + 1 }], 1000);
-                            v.push(Case { pol, onchain, ucs, chain, v: sv.clone(), ctype, entry, n: 1, c: c1, devs: vec![] });
+                            v.push(Case { pol, onchain, ucs, chain, v: sv.clone(), ctype, entry, n: 1, c: c1.clone(), other_ahead: false, devs: vec![] });
+                            if pol != 2 {
+                                v.push(Case { pol, onchain, ucs, chain, v: sv.clone(), ctype, entry, n: 1, c: c1, other_ahead: true, devs: vec![] });
+                            }
                             // and one without HTLCs
                             let c2 = balanced(&sv, ht, vec![], vec![], 1000);
-                            v.push(Case { pol, onchain, ucs, chain, v: sv.clone(), ctype, entry, n: 1, c: c2, devs: vec![] });
+                            v.push(Case { pol, onchain, ucs, chain, v: sv.clone(), ctype, entry, n: 1, c: c2, other_ahead: false, devs: vec![] });
                         }
                     }
                 }
